@@ -608,9 +608,41 @@ package decor
 //@   ensures  unit: called("InvertedCurrent") == old(called("InvertedCurrent")) + 1 && hasType(calledWith("InvertedCurrent", 0), "SizeB1000")
 //@              && calledWith("InvertedCurrent", 1) == format && calledWith("InvertedCurrent", 2) == wcc && result == returned("InvertedCurrent", 0)
 
+// choosers and shortcuts: exactly the decorator (or nil) the condition selects; the combined
+// wrappers nest the abort wrapper inside the complete wrapper with the same message / function
+//@ func Conditional
+//@   props    C02 C03 C07
+//@   modifies nothing
+//@   ensures  chosen: (cond ==> result == a) && (!cond ==> result == b)
+//@ func Predicative
+//@   props    C02 C03 C07
+//@   requires predicate != nil
+//@   ensures  chosen: called("Predicative.predicate") == old(called("Predicative.predicate")) + 1 && (returned("Predicative.predicate", 0) ==> result == a) && (!returned("Predicative.predicate", 0) ==> result == b)
+//@ func OnCondition
+//@   props    C02 C03 C07
+//@   modifies nothing
+//@   ensures  chosen: (cond ==> result == decorator) && (!cond ==> result == nil)
+//@ func OnPredicate
+//@   props    C02 C03 C07
+//@   requires predicate != nil
+//@   ensures  forwarded: called("Predicative") == old(called("Predicative")) + 1 && calledWith("Predicative", 0) == predicate && calledWith("Predicative", 1) == decorator && calledWith("Predicative", 2) == nil && result == returned("Predicative", 0)
+//@ func OnCompleteOrOnAbort
+//@   props    C02 C03 C07
+//@   modifies nothing
+//@   ensures  nested: calledWith("OnAbort", 0) == decorator && calledWith("OnAbort", 1) == message && calledWith("OnComplete", 0) == returned("OnAbort", 0) && calledWith("OnComplete", 1) == message && result == returned("OnComplete", 0)
+//@              && called("OnAbort") == old(called("OnAbort")) + 1 && called("OnComplete") == old(called("OnComplete")) + 1
+//@ func Name
+//@   props    C02 C20 C07
+//@   ensures  named: called("Any") == old(called("Any")) + 1 && fnof(calledWith("Any", 0)) == fn("Name$1") && bound(calledWith("Any", 0), "str") == str && calledWith("Any", 1) == wcc && result == returned("Any", 0)
+//@ func Name$1
+//@   props    C02 C20 C07
+//@   modifies nothing
+//@   ensures  result == str
+
 //@ func OnCompleteMetaOrOnAbortMeta
 //@   props    C02 C07
 //@   requires fn != nil
+//@   ensures  nested: calledWith("OnAbortMeta", 0) == decorator && calledWith("OnAbortMeta", 1) == fn && calledWith("OnCompleteMeta", 0) == returned("OnAbortMeta", 0) && calledWith("OnCompleteMeta", 1) == fn && result == returned("OnCompleteMeta", 0)
 
 //@ func Spinner
 //@   props    C02 C07
